@@ -155,7 +155,7 @@ def apply_fault(data, f, other=b""):
         try:
             doc = json.loads(data.decode("utf-8"))
             doc["accessors"][0].pop("bufferView", None)
-            doc["accessors"][0]["count"] = 5 * 10**7
+            doc["accessors"][0]["count"] = 2 * 10**7
             return json.dumps(doc).encode("utf-8")
         except Exception:
             return data
@@ -339,7 +339,7 @@ def json_field(data, f):
             # an accessor without a buffer view is legal (it stands for zeros): its count is then bounded by nothing in the file
             a = accs[r.randrange(len(accs))]
             a.pop("bufferView", None)
-            a["count"] = r.choice([5 * 10**7, 10**9, 2**31])
+            a["count"] = r.choice([2 * 10**7, 10**9, 2**31])
             try:
                 return json.dumps(doc).encode("utf-8")
             except Exception:
